@@ -128,6 +128,9 @@ def run_instance(prog, db, classmap, cname, con, cargs, budget=6000):
                     kind, detail = 'leftover', 'returns with unread ' + '; '.join(sl.remaining_desc())[:220]
             except RaiseEx as e:
                 kind, detail = 'raise', f'{e.kind}'
+                why = unjustified_rejection(it, sl, con)
+                if why:
+                    kind, detail = 'reject', f'raises {e.kind}: {why}'
             except Mismatch as e:
                 kind, detail = 'mismatch', str(e)[:260]
         except Fail as e:
@@ -135,7 +138,7 @@ def run_instance(prog, db, classmap, cname, con, cargs, budget=6000):
         except RecursionError:
             kind, detail = 'fail', 'recursion limit'
         outcomes[kind] += 1
-        if kind in ('route', 'leftover', 'mismatch', 'fail'):
+        if kind in ('route', 'leftover', 'mismatch', 'fail', 'reject'):
             problems.setdefault((kind, detail), orc.describe()[:160])
         npaths += 1
         if npaths > budget:
@@ -144,6 +147,83 @@ def run_instance(prog, db, classmap, cname, con, cargs, budget=6000):
         if not orc.next_path():
             break
     return dict(paths=npaths, outcomes=dict(outcomes), problems=problems, samples=samples)
+
+
+def _norm(a, op, b, val):
+    """the comparison `a op b` having truth value `val`, as a true statement (x, '<' | '<=', y); integer constants are folded into '<='"""
+    t = {'Lt': '<', 'LtE': '<=', 'Gt': '>', 'GtE': '>=', '<': '<', '<=': '<=', '>': '>', '>=': '>='}[op]
+    if t in ('>', '>='):
+        a, b, t = b, a, '<' if t == '>' else '<='
+    if not val:
+        a, b, t = b, a, '<' if t == '<=' else '<='
+    if t == '<' and isinstance(b, int):
+        b, t = b - 1, '<='
+    elif t == '<' and isinstance(a, int):
+        a, t = a + 1, '<='
+    return (a, t, b)
+
+
+def unjustified_rejection(it, sl, con):
+    """obligation (e): a deserializer may refuse a value only where the schema does.  When the raise is guarded by an order comparison between
+    fields of this constructor (or a field and a constant), the guard - as decided on this path - must be the negation of one of the
+    constructor's `{ a <= b }` constraints or lie outside the field's bit width; otherwise valid encodings are rejected."""
+    if not it.decided:
+        return None
+    key, val = list(it.decided.items())[-1]
+    if not (isinstance(key, tuple) and key and key[0] == 'cmp'):
+        return None
+    names = {}
+    widths = {}
+    for name, sym in sl.reads:
+        if name:
+            names[repr(it.vkey(sym))] = name
+            n = getattr(getattr(sym, 'info', None), 'n', None)
+            if isinstance(n, int):
+                widths[name] = n
+
+    def operand(r):
+        if r in names:
+            return names[r]
+        try:
+            v = ast.literal_eval(r)
+        except Exception:
+            return None
+        if isinstance(v, tuple) and len(v) == 2 and v[0] == 'k':
+            try:
+                return int(v[1])
+            except (TypeError, ValueError):
+                return None
+        return v if isinstance(v, int) and not isinstance(v, bool) else None
+    a, b = operand(key[2]), operand(key[3])
+    if a is None or b is None or (isinstance(a, int) and isinstance(b, int)):
+        return None
+    guard = _norm(a, key[1], b, val)
+    fields = set(field_names(con))
+    if not all(isinstance(x, int) or x in fields for x in (guard[0], guard[2])):
+        return None
+    allowed = set()
+    for f in con['fields']:
+        if f[0] == 'constraint' and len(f[1]) == 3 and f[1][1] in ('<=', '>=', '<', '>'):
+            x, op, y = f[1]
+            x = int(x) if x.lstrip('-').isdigit() else x
+            y = int(y) if y.lstrip('-').isdigit() else y
+            allowed.add(_norm(x, op, y, False))
+            # fields the analysis enumerates concretely (flag bits that select optional parts) appear by value in the guard
+            xs = [x] + ([sl.env[x]] if isinstance(x, str) and isinstance(sl.env.get(x), int) else [])
+            ys = [y] + ([sl.env[y]] if isinstance(y, str) and isinstance(sl.env.get(y), int) else [])
+            for x_ in xs:
+                for y_ in ys:
+                    if not (isinstance(x_, int) and isinstance(y_, int)):
+                        allowed.add(_norm(x_, op, y_, False))
+    if guard in allowed:
+        return None
+    x, t, y = guard
+    if isinstance(y, int) and isinstance(x, str) and y < 0:
+        return None        # x <= negative: impossible for an unsigned field, the raise is dead
+    if isinstance(x, int) and isinstance(y, str) and y in widths and x > (1 << widths[y]) - 1:
+        return None        # beyond the field's width: dead as well
+    cons = ', '.join(' '.join(f[1]) for f in con['fields'] if f[0] == 'constraint') or 'none'
+    return f'the value is refused when {x} {t} {y}, which the constraints of {con["name"]} ({cons}) do not exclude'
 
 
 def routing_problem(con, res):
